@@ -87,6 +87,7 @@ def random_shape(rng, version):
         sh["abbreviated"] = rng.random() < 0.3
         sh["sid_len"] = rng.choice([0, 1, 7, 16, 32]) if not sh["abbreviated"] else rng.choice([1, 16, 32])
         sh["tickets"] = rng.randrange(0, 2)
+        sh["warn_alert"] = rng.random() < 0.2
     return sh
 
 
